@@ -1,28 +1,11 @@
 import Nstd.Buffer.LemmasCap
+import Nstd.Buffer.Client
 /-
   Definitions and helper lemmas for the client-level theorem `backlog_faithful` (PropsBacklog.lean): the operations
   Server.cpp performs on a client's send backlog, what the client knows about it (`Track`), and the reference byte
   queue run on such a history (`spec_backlog`).
 -/
 namespace Nstd.Buffer
-
-/-- the operations Server.cpp performs on a client's send backlog -/
-inductive BOp where
-  /-- `_sendBuffer.append(data + sent, size - sent)` (Server.cpp:469,473) -/
-  | append (d : List Nat)
-  /-- `_sendBuffer.removeFront(sent)` (Server.cpp:353) -/
-  | removeFront (n : Nat)
-  | clear
-  /-- `_sendBuffer.free()` (Server.cpp:346,357) -/
-  | free
-  deriving Repr
-
-/-- the Buffer operation on variable `v` -/
-def BOp.op (v : Nat) : BOp → Op
-  | .append d => .appendData v d
-  | .removeFront n => .removeFront v n
-  | .clear => .clear v
-  | .free => .free v
 
 /-- what the client knows about its backlog -/
 structure Track where
